@@ -280,10 +280,11 @@ def run(pm, ctx):
                           key='C15-R2|%s|forward@%s' % (f.qualname, unparse(c.args[1])[:30]))
     ctx.floor('C15-R2', n_rec, 9, 'recursive type-mapping calls')
     pi = path_info(mp.node)
-    fq = [r for r in own_nodes(mp.node) if isinstance(r, ast.Return) and
-          'fmt_namespace(user_defined_type.namespace.name)' in unparse(r.value)]
-    ctx.check('C15-R2', len(fq) == 1 and any(unparse(e) == 'user_defined_type.namespace.name != '
-                                             'ns.name' and pol for e, pol in pi.at(fq[0])),
+    fq = [c for c in own_nodes(mp.node) if isinstance(c, ast.Call) and
+          unparse(c) == 'fmt_namespace(user_defined_type.namespace.name)']
+    foreign = {'user_defined_type.namespace.name != ns.name', 'ns.name != user_defined_type.namespace.name'}
+    ctx.check('C15-R2', len(fq) >= 1 and all(any(unparse(e) in foreign and pol
+                                                 for e, pol in pi.at(c)) for c in fq),
               'foreign user types are qualified with fmt_namespace(their namespace)', mp.loc,
               msg='foreign user types are no longer qualified with fmt_namespace(...): a '
                   'keyword-named namespace is imported as <name>_ but referenced as <name>',
@@ -358,3 +359,7 @@ def run(pm, ctx):
     run_decisions(pm, ctx, 'C15-RD', OWN['C15'])
     from .. import exprdrift
     exprdrift.run(pm, ctx, 'C15-RE', OWN['C15'])
+    from ..conddrift import run_calls
+    run_calls(pm, ctx, 'C15-RC', OWN['C15'])
+    from .. import memo
+    memo.run(pm, ctx, 'C15-MK', OWN['C15'])
